@@ -218,6 +218,11 @@ func (t *Trace) RUnlock() error {
 }
 
 func (t *Trace) CheckReservedLock() (bool, error) {
+	// a yield point BEFORE the probe: the journal has been inspected already (outside the
+	// pager), the reserved byte not yet - a writer can finish in between
+	if t.Event != nil {
+		t.Event("reserved-probe", 0, nil)
+	}
 	b, err := t.P.CheckReservedLock()
 	if t.Event != nil {
 		t.Event("reserved", 0, err)
